@@ -1,6 +1,81 @@
-"""C02 - no value creation, no negative amounts (see lib/ledger.py)."""
-import ledger
+"""C02 - no value creation, no negative amounts (see lib/ledger.py); the bid application's escrow (Bid.tla, Bid_Trace.tla)."""
+import json, os
+import bidlib, ledger, subsys, vlib
+from bidlib import BID_TRACE
+from ledger import vdrive
+
+BID_C = dict(Accts={"a1", "a2"}, Amts={1, 2}, MaxT=2, InitBal=2, Deviations=set())
+BID_CBIG = dict(BID_C, MaxT=3)
+BID_INVS = ["InvConserved", "InvNonNegative", "InvOfferIffActive"]
+BID_PROPS = ["PropForwardOnly", "PropAssetWithPayment", "PropDeadlineEnforced"]
+BID_DEVS = [("refundCounter", "Invariant InvConserved is violated"), ("negativeBid", "Invariant InvNonNegative is violated")]
+
+
+def bid(ctx):
+    """The bid application: bounded model of Bid.tla, then histories of the real application re-computed block by block."""
+    ctx.sany("Bid", "Bid_Trace")
+    cov = {}
+    states = trans = 0
+    for name, consts in [("bid", BID_C)] + ([] if ctx.quick() else [("bid-big", BID_CBIG)]):
+        r = ctx.tlc("Bid", "mc.cfg", name="mc-" + name, extra=["-coverage", "1"], cfg_text=vlib.cfg_text("BSpec", consts, BID_INVS, BID_PROPS))
+        zero = vlib.coverage_zero_actions(r["text"])
+        if zero:
+            raise vlib.ToolFailure("vacuous model %s: actions never taken: %s" % (name, zero))
+        states += r["distinct"]
+        trans += r["generated"]
+    for dev, want in BID_DEVS:
+        d = ctx.tlc("Bid", "dev.cfg", name="bid-dev-" + dev, allow_violation=True, cfg_text=vlib.cfg_text("BSpec", dict(BID_C, Deviations={dev}), BID_INVS, BID_PROPS))
+        if d["ok"] or want not in d["text"]:
+            raise vlib.ToolFailure("vacuity control failed: Bid deviation %s not caught (%s)" % (dev, want))
+    n, blocks = (40, 18) if ctx.quick() else (500, 24)
+    conf = {}
+    tot = dict(scenarios=0, blocks=0, txs=0, accepted=0, dead=0)
+    kinds = {}
+    first = None
+    for fam in ["bid", "bidmix"]:
+        tf = os.path.join(ctx.tmp, "Bid-%s.ndjson" % fam)
+        rep = vdrive(ctx, "subsys", "--family", fam, "--seed", ctx.seed, "--n", n, "--blocks", blocks, "--out", tf, "Bid")
+        first = first or tf
+        for k, v in bidlib.violations(ctx, tf, fam, "Value.").items():
+            conf[k] = conf.get(k, 0) + v
+        for k in tot:
+            tot[k] += rep.get(k, 0)
+        for k, v in rep["kind_stats"].items():
+            if k.startswith("BID_"):
+                kinds[k] = [kinds.get(k, [0, 0])[0] + v[0], kinds.get(k, [0, 0])[1] + v[1]]
+        ctx.log("Bid/%s: %d histories, %d blocks, %d requests (%d accepted), %d deaths" % (fam, rep["scenarios"], rep["blocks"], rep["txs"], rep["accepted"], rep["dead"]))
+    # binding self-test: an open bid whose recorded amount is negative
+    lines = open(first).read().splitlines()
+    done = False
+    for i, ln in enumerate(lines):
+        e = json.loads(ln)
+        if e["ev"] == "Block" and e["s"]["offer"]:
+            k = sorted(e["s"]["offer"])[0]
+            e["s"]["offer"][k]["amt"] = -5
+            bad = os.path.join(ctx.tmp, "bid-corrupt.ndjson")
+            open(bad, "w").write("\n".join(lines[:i] + [json.dumps(e)] + lines[i + 1:]) + "\n")
+            v = subsys.validate(ctx, "Bid", BID_TRACE, bad, "bid-selftest")
+            if not any(p == "Value.NonNegative" and line == i + 1 for (p, line, t, h) in v):
+                raise vlib.ToolFailure("self-test: corrupted offer not reported as Value.NonNegative (got %s)" % v[:5])
+            done = True
+            break
+    if not done:
+        raise vlib.ToolFailure("self-test: no open bid in the first family's traces (workload too poor)")
+    cov.update(states=states, transitions=trans, histories=tot["scenarios"], blocks_recomputed=tot["blocks"], requests=tot["txs"], accepted=tot["accepted"],
+               node_deaths=tot["dead"], per_kind_accepted_rejected=kinds, conformance_notes=conf,
+               rule="guided histories of the bid application (conversations on registered names and on an example asset, counter offers, second bids below the counter offer, accept / reject by both sides, cancel, early expiry requests by anybody, deadlines on, just before and just after a block's time, strangers, closed conversations, names put on sale, adversarial amounts and an unknown asset type) and random mixes; every block is re-computed by TLC with the operators of Bid.tla; Value.* findings (negative amounts, escrow not conserved) are violations of C02, Conf.* differences are listed here as notes")
+    return cov
 
 
 def run(ctx, replay):
+    if replay and json.load(open(replay)).get("spec") == "Bid":
+        bidlib.replay(ctx, replay, "Value.")
+        return
+    bidcov = None
+    if not replay:
+        ctx.build("vworker", "vdrive")
+        bidcov = bid(ctx)
     ledger.run(ctx, "C02", replay)
+    if bidcov:
+        ctx.cov["bid_application"] = bidcov
+        ctx.notes.append("binding self-test (Bid_Trace): an open bid with a negative recorded amount is reported as Value.NonNegative")
